@@ -94,8 +94,8 @@ Section Loop.
           right. rewrite K1 by exact Hne. exact Hr.
   Qed.
 
-  Lemma outer_loop_inv inner modes : forall fuel it st st',
-    outer_loop dM op val msub madd E inner fuel it modes st = Ok st' ->
+  Lemma outer_loop_inv n inner modes : forall fuel it st st',
+    outer_loop dM op val msub madd E n inner fuel it modes st = Ok st' ->
     length (fst st') = length (fst st) /\
     (forall m, ~ In m modes -> nth m (fst st') dM = nth m (fst st) dM) /\
     (forall m, m < length (fst st) -> in_range m (nth m (fst st) dM) -> in_range m (nth m (fst st') dM)) /\
@@ -105,6 +105,7 @@ Section Loop.
     - inversion H; subst. repeat split; auto. intros L; inversion L.
     - destruct (sweep dM op val msub madd E inner it st modes) as [st1|] eqn:S; simpl in H; [|discriminate H].
       apply sweep_inv in S. destruct S as (L1 & K1 & R1).
+      destruct (err_defined E n modes (fst st1)); [|discriminate H].
       destruct (e_stop E it (fst st1) (snd st1)).
       + inversion H; subst. repeat split; auto.
       + apply IH in H. destruct H as (L2 & K2 & R2 & _).
@@ -142,7 +143,8 @@ Section Loop.
     unfold constrained_cp. intros H.
     destruct (val 0) as [c0|]; simpl in H; [|discriminate H].
     destruct (initialize op val i0) as [fs0|] eqn:I; simpl in H; [|discriminate H].
-    destruct (outer_loop dM op val msub madd E n_inner n_outer 0 (modes_list n fixed)
+    destruct ((0 <? n_outer) && negb (Nat.eqb (length fs0) n)) eqn:LenOk; [discriminate H|].
+    destruct (outer_loop dM op val msub madd E n n_inner n_outer 0 (modes_list n fixed)
                          (fs0, map (fun _ => zero) fs0)) as [st|] eqn:O; simpl in H; [|discriminate H].
     inversion H; subst. pose proof O as O'. apply outer_loop_inv in O. simpl in O. destruct O as (L & K & R & U).
     assert (I0 : length fs0 = length (init_factors i0) /\
@@ -233,4 +235,39 @@ Section Loop.
     - apply Nat.eqb_eq in Ex. destruct Hin as [Hin | Hin]; [congruence | exact Hin].
     - destruct Hin as [Hin | Hin]; [left; exact Hin | right; apply IH; exact Hin].
   Qed.
+  (* the two raises of the decomposition that are not validation errors *)
+  Lemma cp_no_mode_updated val n (E : env (M := M)) i0 fixed n_outer n_inner zero :
+    modes_list n fixed = [] -> 0 < n_outer ->
+    constrained_cp dM op val msub madd E n i0 fixed n_outer n_inner zero = Err.
+  Proof.
+    intros Hm Hn. unfold constrained_cp. destruct (val 0); simpl; [|reflexivity].
+    destruct (initialize op val i0) as [fs0|]; simpl; [|reflexivity].
+    destruct ((0 <? n_outer) && negb (Nat.eqb (length fs0) n)); [reflexivity|].
+    rewrite Hm. destruct n_outer; [lia|]. reflexivity.
+  Qed.
+  Lemma cp_wrong_factor_count val n (E : env (M := M)) ufs fixed n_outer n_inner zero :
+    length ufs <> n -> 0 < n_outer ->
+    constrained_cp dM op val msub madd E n (IUser ufs) fixed n_outer n_inner zero = Err.
+  Proof.
+    intros Hl Hn. unfold constrained_cp. destruct (val 0); simpl; [|reflexivity].
+    apply Nat.ltb_lt in Hn. rewrite Hn. apply Nat.eqb_neq in Hl. rewrite Hl. reflexivity.
+  Qed.
 End Loop.
+
+(* the last mode is updated unless fixed_modes lists it twice *)
+Lemma remove_first_NoDup_notin a : forall l, NoDup l -> ~ In a (remove_first a l).
+Proof.
+  induction l as [|x r IH]; intros N; simpl; [tauto|]. inversion N as [|? ? Nx Nr]; subst.
+  destruct (Nat.eqb x a) eqn:Ex.
+  - apply Nat.eqb_eq in Ex. subst. exact Nx.
+  - apply Nat.eqb_neq in Ex. intros [H | H]; [congruence | exact (IH Nr H)].
+Qed.
+Lemma modes_list_has_last n fixed : NoDup fixed -> 0 < n -> In (n - 1) (modes_list n fixed).
+Proof.
+  intros N Hn. unfold modes_list. rewrite filter_In, in_seq. split; [lia|].
+  apply negb_true_iff. apply not_true_iff_false. rewrite memb_In.
+  destruct (memb (n - 1) fixed) eqn:Em.
+  - apply remove_first_NoDup_notin. exact N.
+  - intro H. apply memb_In in H. congruence.
+Qed.
+
